@@ -24,7 +24,7 @@ package absnfs
 //@ ensures [buffer-never-fails] typeof(w) == typeid(*bytes.Buffer) ==> isnil(result)
 
 //@ func xdrDecodeUint32
-//@ prop C13 C15
+//@ prop C13 C15:safety
 //@ modifies rpos
 //@ ensures [frame] forall(o, mathint, o != valof(r) ==> rpos[o] == old(rpos[o])) && rpos[valof(r)] >= old(rpos[valof(r)])
 //@ ensures [ok-iff-4-bytes] isnil(result1) <==> rlen[valof(r)] - old(rpos[valof(r)]) >= 4
@@ -51,7 +51,7 @@ package absnfs
 //@ ensures [buffer-never-fails] typeof(w) == typeid(*bytes.Buffer) ==> isnil(result)
 
 //@ func xdrDecodeFileHandle
-//@ prop C13 C15
+//@ prop C13 C15:safety
 //@ allocbound 64
 //@ modifies rpos, elems(byte)
 //@ ensures [frame] forall(o, mathint, o != valof(r) ==> rpos[o] == old(rpos[o])) && rpos[valof(r)] >= old(rpos[valof(r)])
@@ -61,7 +61,7 @@ package absnfs
 //@ ensures [wrong-size-skipped-padded] rlen[valof(r)] - old(rpos[valof(r)]) >= 4 && be32(rdata[valof(r)], old(rpos[valof(r)])) >= 1 && be32(rdata[valof(r)], old(rpos[valof(r)])) <= 64 && be32(rdata[valof(r)], old(rpos[valof(r)])) != 8 && rlen[valof(r)] - old(rpos[valof(r)]) >= 4 + (be32(rdata[valof(r)], old(rpos[valof(r)])) + 3) / 4 * 4 ==> !isnil(result1) && rpos[valof(r)] == old(rpos[valof(r)]) + 4 + (be32(rdata[valof(r)], old(rpos[valof(r)])) + 3) / 4 * 4
 
 //@ func xdrDecodeString
-//@ prop C13 C07 C15
+//@ prop C13 C07 C15:safety
 //@ allocbound 8192
 //@ modifies rpos, elems(byte)
 //@ ensures [frame] forall(o, mathint, o != valof(r) ==> rpos[o] == old(rpos[o])) && rpos[valof(r)] >= old(rpos[valof(r)])
@@ -98,7 +98,7 @@ package absnfs
 // ---- AUTH_SYS credential body parser (in-memory reader)
 
 //@ func byteReader.readUint32
-//@ prop C13 C10 C15
+//@ prop C13 C10 C15:safety
 //@ requires r != nil && 0 <= r.pos && r.pos <= 4611686018427387904
 //@ modifies r.pos
 //@ ensures [ok-iff-4-bytes] isnil(result1) <==> old(r.pos) + 4 <= len(r.data)
@@ -106,7 +106,7 @@ package absnfs
 //@ ensures [error-consumes-nothing] !isnil(result1) ==> r.pos == old(r.pos)
 
 //@ func byteReader.readString
-//@ prop C13 C10 C15
+//@ prop C13 C10 C15:safety
 //@ allocbound 8192
 //@ requires r != nil && 0 <= r.pos && r.pos <= 4611686018427387904
 //@ modifies r.pos
@@ -115,7 +115,7 @@ package absnfs
 //@ ensures [pos-monotone] r.pos >= old(r.pos) && r.pos <= old(r.pos) + 8200
 
 //@ func ParseAuthSysCredential
-//@ prop C13 C10 C15
+//@ prop C13 C10 C15:safety
 //@ allocbound 16
 //@ modifies elems(uint32)
 //@ ensures [cred-or-error] isnil(result1) <==> result0 != nil
@@ -136,7 +136,7 @@ package absnfs
 // ---- RPC call header decoder
 // layout of an RPC call at offset p: xid, msg_type(0), rpcvers, prog, vers, proc, cred(flavor,len,body,pad), verf(...)
 //@ func DecodeRPCCall
-//@ prop C13 C15
+//@ prop C13 C15:safety
 //@ allocbound 400
 //@ modifies rpos, elems(byte)
 //@ ensures [call-or-error] isnil(result1) <==> result0 != nil
